@@ -13,6 +13,7 @@ pub mod ops_lazy;
 pub mod ops_misc;
 pub mod ops_range;
 pub mod ops_remove;
+pub mod ops_views;
 pub mod props;
 pub mod tset;
 pub mod world;
